@@ -74,6 +74,20 @@ pub assume_specification<T, F: FnMut(&T, &T) -> Ordering> [<[T]>::sort_by] (s: &
 pub assume_specification<T, F: FnMut(&T, &T) -> Ordering> [<[T]>::sort_unstable_by] (s: &mut [T], f: F)
     ensures final(s)@.to_multiset() == old(s)@.to_multiset();
 
+// VecDeque::swap_remove_back / swap_remove_front (std): the element at `index` is removed and replaced by the last / first element;
+// out of range: None and nothing changes.  Order of the remaining elements is NOT preserved (that is what a caller relying on FIFO
+// order must fail on).
+pub assume_specification<T, A: core::alloc::Allocator> [VecDeque::<T, A>::swap_remove_back] (v: &mut VecDeque<T, A>, index: usize) -> (r: Option<T>)
+    ensures
+        index < old(v)@.len() ==> r == Some(old(v)@[index as int])
+            && final(v)@ == old(v)@.update(index as int, old(v)@.last()).drop_last(),
+        index >= old(v)@.len() ==> r is None && final(v)@ == old(v)@;
+pub assume_specification<T, A: core::alloc::Allocator> [VecDeque::<T, A>::swap_remove_front] (v: &mut VecDeque<T, A>, index: usize) -> (r: Option<T>)
+    ensures
+        index < old(v)@.len() ==> r == Some(old(v)@[index as int])
+            && final(v)@ == old(v)@.update(index as int, old(v)@.first()).drop_first(),
+        index >= old(v)@.len() ==> r is None && final(v)@ == old(v)@;
+
 // R11 idiom stubs (ASSUMED contracts on std iterator idioms Verus cannot ingest)
 pub trait IdiomDrainAll<T> {
     spec fn idiom_view(&self) -> Seq<T>;
